@@ -19,6 +19,18 @@ claimed = {
    text="Session.Close and Peer.Close are placed at every point (all interleavings up to the preemption bound) of the handler-entry / handler-step / reply-write / reply-arrival timeline for an inbound and an outbound call; the order of handler entry/exit, reply write, Close call and Close return is part of the explored state and the oracle is evaluated on that event log.",
    note="Trusted base: vinstr + shims; one call per direction in quick tier, bound 1 (quick) / 2 (thorough).",
    technique="stateless model checking of the implementation: DFS over schedules with preemption bound + happens-before state caching"),
+ "C03": dict(category="model_checking", design="DESIGN.md §3 C03",
+   text="A scripted raw peer sends every frame of a 1152-frame alphabet (type byte x route x body x codec id x metadata), for 6 plugin-veto settings and with/without unknown-handlers, to a real server, followed by a probe call when the connection stays up; every non-preemptive schedule is explored, and every pair of back-to-back frames (same/different sequence number; returning, erroring, panicking, blocking handlers, pushes) under all interleavings up to the bound. The oracle parses the server's output with an independent frame parser: per CALL at most one handler run and exactly one REPLY unless disconnected, PUSH never answered, unsupported type => disconnect and no handler.",
+   note="Trusted base: vinstr + shims + the independent raw-frame model in world/rawframe.go; raw protocol only.",
+   technique="exhaustive input-alphabet enumeration crossed with stateless schedule exploration (preemption bound) on the implementation"),
+ "C04": dict(category="model_checking", design="DESIGN.md §3 C04",
+   text="On live sessions every handler status of the alphabet and every framework failure cause is produced and the caller-side (code,msg,cause) compared with the expected triple, over raw/json/pb/thrift-binary under all non-preemptive schedules; at frame level a REPLY carrying every status of the full alphabet is packed and unpacked by every shipped protocol including both websocket sub-protocols.",
+   note="Trusted base: vinstr + shims; thrift-struct and http protocols not covered; the protobuf websocket sub-protocol's missing status field is a known finding.",
+   technique="exhaustive alphabet enumeration on live sessions under the controlled scheduler + bounded-exhaustive frame enumeration"),
+ "C05": dict(category="exploration", design="DESIGN.md §3 C05",
+   text="Bounded-exhaustive enumeration of messages (one-factor over full field alphabets + full product of reduced alphabets) and of frame sequences x chunkings per protocol, compared field by field with a reference model, including size stability.",
+   note="Values outside the alphabets are not covered; http and thrift-struct protocols not covered; three edge cases are known findings.",
+   technique="bounded-exhaustive enumeration against a reference model (no sampling)"),
 }
 pending = {}
 for i in range(1, 21):
@@ -38,6 +50,7 @@ m = {
  },
  "engines": [
    {"name": "vsched", "path": "shim/vsched", "serves_properties": sorted(claimed), "kind_free_text": "cooperative scheduler + stateless DFS explorer with preemption bounding over the instrumented implementation"},
+   {"name": "venum", "path": "scen", "serves_properties": sorted(k for k in claimed if claimed[k]["category"] != "model_checking"), "kind_free_text": "bounded-exhaustive enumerators with reference models, sharded over worker processes"},
    {"name": "vinstr", "path": "cmd/vinstr", "serves_properties": sorted(claimed), "kind_free_text": "source instrumenter (sync/atomic/chan/go/pool/net -> shims), emits go build overlay from the current /repo tree"},
  ],
  "checks": [],
@@ -52,7 +65,7 @@ for pid in sorted(claimed):
       "thorough_cmd": "cd /verif && ./bin/vcheck %s thorough" % pid,
       "evidence_file": "/verif/evidence/%s.json" % pid,
       "replay_cmd_template": "cd /verif && ./bin/vcheck replay {path}",
-      "engine": "vsched",
+      "engine": "venum" if c["category"] == "exploration" else "vsched",
       "level_claimed": {"category": c["category"], "text": c["text"], "design_ref": c["design"]},
       "level_note": c["note"],
       "technique": c["technique"],
